@@ -32,6 +32,8 @@ _scratch_dirs = []
 
 
 def _cleanup():
+    if os.environ.get("VERIF_KEEP_SCRATCH"):        # debugging aid: leave overlays and worker logs in place
+        return
     for d in _scratch_dirs:
         shutil.rmtree(d, ignore_errors=True)
 
